@@ -140,8 +140,11 @@ def build(S, tier):
             hy = list(p.pc)
             # gamma contract
             g_spec = F0 * d / (2 * T * kB)
+            rinfo = {"native": "C13", "kind": "fb_step", "syms": {"T": v["T"], "delta": v["d"], "F": Sym(F0), "zeta": Sym(zeta), "power": v["pw"],
+                                                                     "scaling_mass": Sym(R(rep(mc.attrs["shaped_masses"]))), "mass": at.mass},
+                     "extra": {"independent_scaling_masses": "independent" in delta_kind}}
             S.prove(f"{label}#ensures.gamma_is_clipped_F_delta_over_2kT@{i}",
-                    gamma == z3.If(g_spec < -GMAX, -GMAX, z3.If(g_spec > GMAX, GMAX, g_spec)), hyps=hy)
+                    gamma == z3.If(g_spec < -GMAX, -GMAX, z3.If(g_spec > GMAX, GMAX, g_spec)), hyps=hy).info["replay"] = rinfo
             S.prove(f"{label}#ensures.denominator@{i}", R(rep(mc.attrs["denominator"])) == F_exp(gamma) - F_exp(-gamma), hyps=hy)
             # accepted zeta satisfies the published acceptance function for its own (zeta,u)
             conv = p.interp  # noqa
@@ -150,7 +153,7 @@ def build(S, tier):
             # (recovered from the invariant: converged <=> Pcode > u); here we compare Pcode with the spec
             Pc = R(rep(p.interp.call(p.interp.getattr(mc, "calculate_trial_probability"), [], {})))
             den, Ps = spec_P(zeta, gamma)
-            S.prove(f"{label}#ensures.trial_probability_is_bal_neyts@{i}", Pc == Ps, hyps=hy + [zeta != 0])
+            S.prove(f"{label}#ensures.trial_probability_is_bal_neyts@{i}", Pc == Ps, hyps=hy + [zeta != 0]).info["replay"] = rinfo
             S.prove(f"{label}#ensures.zeta_in_unit_interval@{i}", z3.And(zeta >= -1, zeta < 1), hyps=hy)
             # bound and exact displacement
             disp = R(rep(at.positions)) - x0
@@ -160,8 +163,8 @@ def build(S, tier):
             if len(mins) == 1:
                 mmin = R(mins[0])
                 bound = d * F_pow(mmin / m, v["pw"].t)
-                S.prove(f"{label}#ensures.displacement_is_zeta_delta_mass_factor@{i}", disp == zeta * bound, hyps=hy + [mmin > 0])
-                S.prove(f"{label}#ensures.displacement_bounded@{i}", z3.And(disp <= bound, disp >= -bound), hyps=hy + [mmin > 0])
+                S.prove(f"{label}#ensures.displacement_is_zeta_delta_mass_factor@{i}", disp == zeta * bound, hyps=hy + [mmin > 0]).info["replay"] = rinfo
+                S.prove(f"{label}#ensures.displacement_bounded@{i}", z3.And(disp <= bound, disp >= -bound), hyps=hy + [mmin > 0]).info["replay"] = rinfo
             # advances the configuration exactly once
             log = at.log
             S.prove(f"{label}#ensures.one_set_positions_one_energy_evaluation@{i}",
